@@ -192,6 +192,16 @@ pub fn random_file(rng: &mut StdRng) -> String {
             let l = crate::lexrec::random_line(rng);
             lines.push(if rng.gen_bool(0.8) { format!("{} {}", rng.gen_range(1..100) * 10, l) } else { l });
         }
+        // indentation before the line number (blanks, tabs) and a CR at the end must not move any range
+        if rng.gen_bool(0.2) {
+            let ind = [" ", "  ", "\t", "   ", " \t "][rng.gen_range(0..5)];
+            let last = lines.len() - 1;
+            lines[last] = format!("{}{}", ind, lines[last]);
+        }
+        if rng.gen_bool(0.1) {
+            let last = lines.len() - 1;
+            lines[last].push('\r');
+        }
     }
     lines.join("\n")
 }
